@@ -45,6 +45,16 @@ pub fn create_outstation(
 }
 
 impl OutstationProbe {
+    /// what the library's own task loops do between two sessions: process messages until communications
+    /// are enabled (returns at once when they are)
+    pub async fn wait_enabled(&mut self) {
+        while self.task.enabled() == Enabled::No {
+            if let Err(crate::util::session::StopReason::Shutdown) = self.task.process_next_message().await {
+                return;
+            }
+        }
+    }
+
     /// one communication session over the given pipe end: returns why it ended
     pub async fn run_session(&mut self, pipe: tokio::io::DuplexStream) -> String {
         let mut io = PhysLayer::Pipe(pipe);
